@@ -1586,7 +1586,12 @@ func (eval Evaluator) InnerSum(ctIn *rlwe.Ciphertext, batchSize, n int, opOut *r
 
 	if l == N {
 		if n == 1 {
-			opOut.Copy(ctIn)
+			if opOut != ctIn {
+				// as PartialTracesSum does: the receiver takes the shape of the input
+				// (Copy alone keeps a larger degree / level and their old content)
+				opOut.Resize(ctIn.Degree(), ctIn.Level())
+				opOut.Copy(ctIn)
+			}
 			return
 		}
 
